@@ -1,5 +1,5 @@
 SPEC = {
-    "lean_modules": ["AM.Props.C06", "AM.Props.C06Sched"],
+    "lean_modules": ["AM.Props.C06", "AM.Props.C06Sched", "AM.Props.C13"],
     "theorems": [
         "AM.Route.group_labels_spec", "AM.Route.same_group_iff", "AM.Route.group_key_pure", "AM.Route.route_key_spec",
         "AM.Route.child_key_spec", "AM.Route.ginv_ingestRoute", "AM.Route.ingestRoute_lands",
@@ -15,12 +15,19 @@ SPEC = {
         "AM.GroupMap.casRace_ok", "AM.GroupMap.store_for_cas_orphans_live_group",
         "AM.GroupMap.losRace_ok", "AM.GroupMap.store_for_loadOrStore_orphans_live_group",
         "AM.GroupMap.flushVsInsert_ok", "AM.GroupMap.insert_into_destroyed_is_lost",
+        # what reaches the dispatcher (engine ingest of C13, through the API's POST handler and the provider): no empty-valued label
+        # (equal group_by values = one group), and an alert that fires again at the instant its resolved episode ended is a new
+        # alert with its own start (the re-created group gets a fresh group_wait)
+        "AM.Ingest.removeEmpty_spec", "AM.Ingest.refire_after_end_starts_anew",
     ],
     "engines": [
         {"name": "group", "pkg": "./group", "search_cases": 8000, "timeout_quick": 600},
         {"name": "groupsched", "pkg": "./groupsched", "search_cases": 6000, "timeout_quick": 240},
         # "contains every non-suppressed alert of that group known at flush time", across dispatcher restarts (engine sys of C01/C04/C05)
-        {"name": "sys", "pkg": "./sys", "search_cases": 4000, "quick_cases": 300, "timeout_quick": 90, "only": ["flush_lists_all", "no_orphan_live_group", "flush_sent_content"]},
+        {"name": "sys", "pkg": "./sys", "search_cases": 4000, "quick_cases": 300, "timeout_quick": 90, "only": ["flush_lists_all", "no_orphan_live_group", "flush_sent_content", "refire_after_end_starts_anew"]},
+        # the alerts the dispatcher groups are the ones POST /api/v2/alerts + mem.Alerts.Put store (C13's engine): an empty-valued label would
+        # split a group (group_by sees `zone=""` next to no zone), a re-fire merged into the resolved episode would re-create its group without group_wait
+        {"name": "ingest", "pkg": "./ingest", "search_cases": 15000, "quick_cases": 1500, "only": ["removeEmpty_spec", "refire_after_end_starts_anew"]},
         # "GET /alerts/groups shows exactly this partition": never a half-built one while a (re)started dispatcher is still loading (C14's engine)
         {"name": "workers", "pkg": "./workers", "search_cases": 4000, "quick_cases": 800, "only": ["groups_api_is_partition"]},
         # never two live dispatchers (two live groups per key) while a reload is in progress (C17's engine, slow reload)
